@@ -3,14 +3,17 @@ import vlib
 
 REWRITES = [("cmd/application/conns.go", ["-swap", "time=vtime", "-swap", "math/rand=vrand"]),
             ("pkg/station/lib/proxies.go", ["-swap", "time=vtime", "-swap", "sync=vsync", "-swap", "net=vnet", "-go", "-chan"]),
-            ("pkg/station/lib/registration.go", ["-swap", "time=vtime"])]
+            ("pkg/station/lib/registration.go", ["-swap", "time=vtime"]),
+            # C17: the dial-the-client goroutine of the connecting transports runs under the scheduler
+            ("pkg/station/lib/registration_ingest.go", ["-go"])]
 INJECTS = [("harness/libacc/lib_verif.go", "pkg/station/lib/zz_verif_acc.go"),
            ("harness/app/zz_verif_main.go", "cmd/application/zz_verif_main.go"),
            ("harness/app/zz_verif_common.go", "cmd/application/zz_verif_common.go"),
            ("harness/app/zz_verif_keys.go", "cmd/application/zz_verif_keys.go"),
            ("harness/app/zz_verif_c03.go", "cmd/application/zz_verif_c03.go"),
            ("harness/app/zz_verif_c04.go", "cmd/application/zz_verif_c04.go"),
-           ("harness/app/zz_verif_c17.go", "cmd/application/zz_verif_c17.go")]
+           ("harness/app/zz_verif_c17.go", "cmd/application/zz_verif_c17.go"),
+           ("harness/app/zz_verif_c17b.go", "cmd/application/zz_verif_c17b.go")]
 
 
 def build():
